@@ -146,19 +146,21 @@ fn proof_options(s: &mut S) -> Vec<ProofOptions> {
     for (what, o) in &all {
         rt("ProofOptions", format!("ProofOptions[{what}] {o:?}"), o, s);
     }
-    // all 16 x 256 partition settings
+    // all 16 x 256 partition settings x 3 extensions
     for p in 1..=16usize {
         for r in 1..=256usize {
-            match mck::catch(|| base(8, 8, 0, exts[1], 4, 7, bms[0], bms[0]).with_partitions(p, r)) {
+          for (ei, e) in exts.iter().enumerate() {
+            match mck::catch(|| base(8, 8, 0, *e, 4, 7, bms[0], bms[0]).with_partitions(p, r)) {
                 Ok(o) => {
                     s.nontrivial += 1;
-                    rt("ProofOptions", format!("ProofOptions with_partitions({p}, {r})"), &o, s);
-                    if r == 256 || (p, r) == (16, 255) {
+                    rt("ProofOptions", format!("ProofOptions with_partitions({p}, {r}) extension {e:?}"), &o, s);
+                    if ei == 1 && (r == 256 || (p, r) == (16, 255)) {
                         keep.push(o);
                     }
                 },
                 Err(_) => {},
             }
+          }
         }
     }
     keep.extend(all.into_iter().step_by(97).map(|(_, o)| o));
